@@ -37,7 +37,7 @@ def c09(c):
            "checked against the grid recorded in the result, scripted runs hitting canonical 0 / largest-below-1 / k/bins +-1ulp in every "
            "coordinate, direct vegas_icdf(u=1.0 and u=0), and runs with an all-zero iteration. non-trivial = non-uniform input grid, "
            "non-constant data and equidistribution actually judged (direct), or an adaptive run; distinct = hash of (T, grid, data) / run config.",
-      assumptions=["equidistribution tolerance 16*(bins+8)*eps_T*sum(imp)*(1+alpha) + 4*eps_T*|x|*local density (rounding of the running sums and of the stored boundary)",
+      assumptions=["equidistribution tolerance 16*(bins+8)*eps_T*sum(imp)*(1+alpha) + 8*eps_T*local density (rounding of the running sums; the boundary is interpolated from the right edge of an old bin, so its absolute error is a few eps of that edge, at most 1)",
                    "dimensions whose smallest smoothed share would be below 64*min_normal(T) are validated for grid validity only (underflow makes T and long double legitimately differ)",
                    "data whose smoothed sum overflows are not generated",
                    "reference importance function written from the documentation in long double"])
